@@ -17,7 +17,8 @@ RULE = (
     "inner, gaps 0-3, terminal completion / error / none = never completes) and an outer timeline (cold / synchronous / "
     "hot, 0-5 (thorough 0-7) elements selecting inners, possibly the same inner several times, terminal completion / error / none); "
     "forms merge_all, merge(max_concurrent=1..4), flat_map (mapper and constant-observable forms), flat_map_indexed, "
-    "concat_map, and the n-ary reactivex.merge(...) / ops.merge(...) forms (outer = the argument list); subscribed at a "
+    "concat_map (in a fifth of the mapper cases the mapper raises for one outer element: the output must terminate with that "
+    "exception at the element's arrival instant, also while earlier inners occupy the concurrency slot), and the n-ary reactivex.merge(...) / ops.merge(...) forms (outer = the argument list); subscribed at a "
     "generated tick on the virtual scheduler (TestScheduler, one case in five on a HistoricalScheduler with 1 ms ticks; n-ary forms also through the default trampoline); half of the 'limited' "
     "cases use a saturation shape (slow inners fill max_concurrent, queued inners that complete synchronously inside "
     "their own subscribe, outer completing early). Oracle: an independent "
@@ -37,7 +38,7 @@ ASSUMPTIONS = [
     "a Subject-backed inner (kind subject) delivers its terminal at once to a subscriber that arrives after, or during the dispatch of, that terminal (documented Subject behaviour)",
     "inner sources are conforming; a subscription counts as active until its own terminal was delivered or it was unsubscribed",
     "subscriptions opened after the output already terminated (a synchronous outer still unwinding) are not judged here (C02/C03)",
-    "mapper functions are total and pure (C09 covers raising mappers)",
+    "mapper functions are total and pure, except that in a share of the flat_map / flat_map_indexed / concat_map cases the mapper raises for one outer element; the projection is applied when the outer element arrives (flat_map = map + merge_all; concat_map is documented as map + merge(max_concurrent=1)), so that exception is the first error at the arrival instant",
 ]
 
 FORMS_OUTER = ["merge_all", "merge_mc", "flat_map", "flat_map_const", "flat_map_indexed", "concat_map"]
@@ -131,7 +132,7 @@ def _run(case):
     sec = case.get("second")
     mode2 = t2 = None
     if sec:
-        ref = simulate(_outer_spec(case), case["inners"], _resolver(case), t0, "fifo", "merge", maxc)
+        ref = simulate(_outer_spec(case), case["inners"], _resolver(case), t0, "fifo", "merge", maxc, case.get("raise_at"))
         mode2, t2 = second_tick(sec, t0, ref.term[0] if ref.term else None)
     lab = Lab("hist", tick_s=0.001) if case.get("clock") == "hist" else Lab()
     inners = [TSource(lab, spec, f"i{i}") for i, spec in enumerate(case["inners"])]
@@ -139,6 +140,8 @@ def _run(case):
     p = lab.probe()
     sch = "lab" if case.get("sched", "lab") == "lab" else None
     lab.expect_sched = sch == "lab"
+    if case.get("raise_at") is not None:
+        lab.arm = {"mapper": {case["raise_at"]}}
     lab.at(t0, lambda: p.subscribe(o, scheduler=sch))
     p2 = None
     s2 = [None]
@@ -174,7 +177,7 @@ def _run(case):
         first_bad = None
         got_ok = None
         for pol in POLICIES:
-            op = simulate(_outer_spec(case), case["inners"], _resolver(case), tq, pol, "merge", maxc)
+            op = simulate(_outer_spec(case), case["inners"], _resolver(case), tq, pol, "merge", maxc, case.get("raise_at"))
             bad = _judge(case, op, q, qsubs, maxc, logs=separable)
             if bad is None:
                 got_ok = (pol, op)
@@ -194,6 +197,10 @@ def _run(case):
 
     # evidence classes
     cls = [form, "policy:" + pol, "clock:" + case.get("clock", "test")]
+    if case.get("raise_at") is not None and op.term is not None and op.term[1] == "E" and str(op.term[2]).startswith("inj:"):
+        cls.append("mapper-raises")
+        if op.raised_while_busy:
+            cls.append("mapper-raises:while-slot-occupied" if maxc is not None else "mapper-raises:while-inner-active")
     tsrc = [i for i, x in enumerate(op.inners) if x.kind == "subsched" and x.handles]
     if tsrc:
         cls.append("subsched-inner")
@@ -285,6 +292,9 @@ def _cases(draw, forms, big=False):
             c["maxc"] = draw(st.sampled_from([1, 2, 2, 3, 1, 4]))
         if form == "flat_map_const":
             c["const"] = draw(st.integers(0, len(inn) - 1))
+        if form in ("flat_map", "flat_map_indexed", "concat_map") and draw(st.integers(0, 4)) == 0:
+            c["raise_at"] = draw(st.sampled_from([1, 2, 0, 3]))
+            return _clock(draw, c)
     return _clock(draw, draw_second(draw, c))
 
 
@@ -295,6 +305,10 @@ def _saturated(draw):
     c = {"form": form, "inners": sc["inners"], "t0": draw(st.integers(0, 3)), "outer": sc["outer"]}
     if form == "merge_mc":
         c["maxc"] = sc["maxc"]
+    elif draw(st.integers(0, 2)) == 0:
+        n_out = sum(1 for m in c["outer"]["tl"] if m[1] == "N")
+        c["raise_at"] = draw(st.integers(1, max(1, n_out - 1)))  # the projection raises for a later outer element
+        return _clock(draw, c)
     return _clock(draw, draw_second(draw, c))
 
 
